@@ -95,13 +95,13 @@ func waitAll(wg *sync.WaitGroup, timeout time.Duration) bool {
 
 // probe: a write with a deadline must succeed (or report the closed engine).
 func probe(client lungo.IClient, closed bool, what string, extra V) {
-	ctx, cancel := context.WithTimeout(context.Background(), 3*time.Second)
+	ctx, cancel := context.WithTimeout(context.Background(), 15*time.Second)
 	defer cancel()
 	start := time.Now()
 	_, err := client.Database("probe").Collection("p").UpdateOne(ctx, d("_id", int32(1)), d("$inc", d("n", int32(1))), options.Update().SetUpsert(true))
 	took := time.Since(start)
 	if closed {
-		if !errors.Is(err, lungo.ErrEngineClosed) || took > time.Second {
+		if !errors.Is(err, lungo.ErrEngineClosed) || took > 5*time.Second {
 			finding("wedge", what+": after Close a write must return the closed error promptly", V{"err": fmt.Sprint(err), "ms": took.Milliseconds()})
 		}
 		return
@@ -426,7 +426,7 @@ func faults(dir string, seed int64, runs int, table *enc.Table, trace *util.NDJS
 		engine.Close()
 		probe(client, true, "after Close", V{"run": run})
 		// all background work must have stopped
-		deadline := time.Now().Add(2 * time.Second)
+		deadline := time.Now().Add(10 * time.Second)
 		for runtime.NumGoroutine() > baseline && time.Now().Before(deadline) {
 			time.Sleep(10 * time.Millisecond)
 		}
@@ -463,7 +463,7 @@ func guided(dir string, seed int64, table *enc.Table, trace *util.NDJSON) {
 				gB := s.AddGate("B-"+which, "session.locked")
 				sess, _ := client.StartSession()
 				sess.StartTransaction()
-				ok := within(8*time.Second, func() {
+				ok := within(20*time.Second, func() {
 					var wg sync.WaitGroup
 					wg.Add(2)
 					go func() {
@@ -509,7 +509,7 @@ func guided(dir string, seed int64, table *enc.Table, trace *util.NDJSON) {
 				sess, _ := client.StartSession()
 				sess.StartTransaction()
 				sctx := lungo.VerifSessionContext(context.Background(), sess)
-				ok := within(8*time.Second, func() {
+				ok := within(20*time.Second, func() {
 					var wg sync.WaitGroup
 					wg.Add(1)
 					go func() {
@@ -572,12 +572,12 @@ func guided(dir string, seed int64, table *enc.Table, trace *util.NDJSON) {
 				g.Release()
 			}
 			time.Sleep(20 * time.Millisecond) // the writers are now waiting for the slot
-			if !within(5*time.Second, engine.Close) {
+			if !within(15*time.Second, engine.Close) {
 				finding("wedge", "Engine.Close does not complete while writers are queued behind a session transaction", V{"stacks": stacks()})
 				return false
 			}
-			if !waitAll(&wg, 5*time.Second) {
-				finding("wedge", "writers queued for the slot are still blocked 5 s after Engine.Close", V{"stacks": stacks()})
+			if !waitAll(&wg, 15*time.Second) {
+				finding("wedge", "writers queued for the slot are still blocked 15 s after Engine.Close", V{"stacks": stacks()})
 				return false
 			}
 			for w, err := range errs {
